@@ -30,7 +30,12 @@ Inductive msg :=
 | MCV (ok : bool)                    (* CertificateVerify; ok = signature verifies over the transcript *)
 | MFin (ok : bool)                   (* Finished; ok = verify_data matches *)
 | MUnexp                             (* any other handshake message (never allowed after the handshake) *)
-| MAlert (fatal : bool) (desc : Z).
+| MAlert (fatal : bool) (desc : Z)
+(* record-ALIGNMENT violations (RFC 8446 5.1: a message that changes keys must end its record):
+   a record in which a KeyUpdate / a post-handshake Finished is followed by further handshake bytes
+   (a whole message or the first fragment of one, which would then span the key change) *)
+| MKUx (v : Z)
+| MFinx (ok : bool).
 
 Record rec := mkrec { tag : Z; body : msg }.
 
@@ -53,7 +58,8 @@ Record cfgT := mkcfg {
   my_chain : Z;        (* client: identity of its certificate chain (> 0) *)
   recsize : Z;         (* recordSize, >= 1 *)
   dev : Z              (* deviating PHA client (harness wrapper): 0 honest, 1 bad signature, 2 bad Finished,
-                          3 unknown context, 4 replays the first context it saw, 5 empty context, 6 empty chain *)
+                          3 unknown context, 4 replays the first context it saw, 5 empty context, 6 empty chain,
+                          7 Finished not aligned with the end of its record *)
 }.
 
 Record ksT := mkks {   (* key schedule position + ghost counters *)
@@ -193,6 +199,7 @@ Definition pha_reply (me : ep) (ctx : Z) : list msg :=
   (* signature and Finished cover the request actually answered: a foreign context invalidates both *)
   let same := c =? ctx in
   if d =? 6 then [MCert c 0; MFin same]
+  else if d =? 7 then [MCert c (my_chain (cf me)); MCV same; MFinx same]   (* valid Finished, but its record goes on *)
   else [MCert c (my_chain (cf me)); MCV (same && negb (d =? 1)); MFin (same && negb (d =? 2))].
 
 (* heartbeat record received (_getMsg); None = fatal unexpected_message *)
@@ -290,6 +297,8 @@ Fixpoint rloop (v13 : bool) (me : ep) (inc : list rec) : resT :=
     | MCV _ => die me inc' 10
     | MFin _ => die me inc' 10
     | MUnexp => die me inc' 10
+    | MKUx _ => die me inc' 10        (* _getMsg: "... or KU not aligned with record boundary", before parsing *)
+    | MFinx _ => die me inc' 10
     | MAlert f d =>
         if f then (set_closed me, inc', [], 1000 + d)
         else if d =? 0 then (set_closed me, inc', [emit me (MAlert false 0)], 0)
@@ -437,6 +446,8 @@ Definition msg_code (m : msg) : Z * list Z :=
   | MFin ok => (20, [if ok then 1 else 0])
   | MUnexp => (99, [])
   | MAlert f d => (2, [if f then 2 else 1; d])
+  | MKUx v => (25, [v])
+  | MFinx ok => (26, [if ok then 1 else 0])
   end.
 
 Definition zl_eqb := list_eqb.
